@@ -10,7 +10,7 @@ of statement starts (bound) and with a watchdog (liveness).
 import copy
 
 from .. import gen_exec
-from ..core import Stats, Violation, stream, digest_of, SimWatchdog
+from ..core import Stats, Violation, stream, digest_of, SimWatchdog, HarnessError
 from ..driver import RunResult
 from ..realrun import run_real, run_ref, compare_outcomes, norm_events
 
@@ -53,6 +53,7 @@ def gen(seed, tier, extra=None):
     knobs['raw_jumps'] = rng.choice([0.0, 0.2, 0.5])
     knobs['include_depth'] = rng.choice([1, 2, 3, 4])
     knobs['fanout'] = rng.choice([1, 2, 3])
+    knobs['func_includes'] = rng.random() < 0.25
     g = gen_exec.ExecGen(rng, knobs)
     plan = g.gen_plan()
     plan['seed'] = seed
@@ -105,7 +106,8 @@ def run(plan, stats):
     viols = []
     feat = features(plan)
     dig = []
-    sim_options = plan.get('sim_options', True)
+    sim_options = True
+    plain_diff = not plan.get('sim_options', True)
 
     if plan.get('scenario') == 'default-limit':
         return run_default(plan, stats)
@@ -186,6 +188,12 @@ def run(plan, stats):
             viols.append(Violation(PROP, rule, sig, {'limit': lim, 'reference_total': n, 'diff': diff,
                                                      'real_error': real_l.error, 'ref_error': ref_l.error}))
             continue
+        # instrumentation differential: the same run with a plain dict as options must be identical
+        if plain_diff and real_l.error is None or (plain_diff and real_l.error[0] == 'rt'):
+            plain = run_real(plan, limit=lim, sim_options=False)
+            stats.c['plain_dict_differential_runs'] += 1
+            if plain.summary() != real_l.summary() or plain.count != real_l.count:
+                raise HarnessError(f'SimOptions changes behaviour (seed {plan.get("seed")}, limit {lim})')
         # self-relative monotonicity: effects under a smaller limit are a prefix of the unlimited run
         if base_events is not None:
             evs = norm_events(real_l.events)
@@ -208,7 +216,7 @@ def run(plan, stats):
     if 'data-expression-with-variables' in feat:
         stats.probes['program_with_data_variables'] += 1
     sample = None
-    if stats.c['programs'] % 97 == 1:
+    if n is not None and n > 12 and stats.c['programs'] % 23 == 1:
         from .. import ir
         sample = {'seed': plan.get('seed'), 'program': ir.render_statements(plan['model'])[:40],
                   'files': sorted((plan.get('files') or {}).keys()), 'reference_total': n, 'limits': limits[:12]}
@@ -274,7 +282,8 @@ def run_default(plan, stats):
     dig.append(run.summary())
     stats.c['evaluations'] += 1
     stats.faults['clock_jump'] += 1
-    stats.c['statements_simulated'] += 10 ** 6
+    stats.c['statements_simulated'] += cal.starts + run.starts
+    stats.c['clock_ticks_jumped_over'] += 10 ** 15 + 10 ** 6
     stats.probes['default_limit_runs'] += 1
     if run.error is not None and run.error[0] == 'watchdog':
         viols.append(Violation(PROP, 'default', 'no-default-limit',
@@ -289,3 +298,25 @@ def run_default(plan, stats):
 def simulated_time(total):
     return {'unit': 'statements started under simulation (logical clock ticks)',
             'value': int(total.c.get('statements_simulated', 0))}
+
+
+def simplify(plan, v):
+    """Extra shrinking candidates: focus on the failing limit, drop unreferenced answers/exprs."""
+    out = []
+    lim = (v.detail or {}).get('limit') if isinstance(v.detail, dict) else None
+    if lim is not None and plan.get('only_limits') != [lim]:
+        c = copy.deepcopy(plan)
+        c['only_limits'] = [lim]
+        out.append(c)
+    text = repr(plan['model']) + repr([e.get('stmts') for e in (plan.get('files') or {}).values()])
+    unused = [k for k in plan.get('answers', {}) if repr(k) not in text]
+    if unused:
+        c = copy.deepcopy(plan)
+        for k in unused:
+            del c['answers'][k]
+        out.append(c)
+    if plan.get('debug'):
+        c = copy.deepcopy(plan)
+        c['debug'] = False
+        out.append(c)
+    return out
